@@ -37,6 +37,7 @@ pub fn drive(ctx: &Ctx, out: &mut Out, mode: Mode) {
     leg_jets(ctx, out, mode);
     leg_disconnect(ctx, out, mode);
     leg_asymmetric(ctx, out, mode);
+    leg_padded_sources(ctx, out, mode);
     if mode == Mode::Bounds {
         leg_nesting(ctx, out);
     }
@@ -500,6 +501,68 @@ fn leg_asymmetric(ctx: &Ctx, out: &mut Out, mode: Mode) {
                 Err(pn) => out.violation(&panic_class(&pn), leg, label(), pn),
             }
             ctx.end();
+        }
+    }
+}
+
+/// Programs whose *source* type has padding (the compact and the padded length of an input differ),
+/// over a closed list of such types: every term of up to 4 (5) nodes from each padded source to each
+/// listed type, on every input. The input frame, the output frame and the first intermediate frame
+/// are neighbours in the machine's memory; a frame sized by the wrong length shows only here.
+fn leg_padded_sources(ctx: &Ctx, out: &mut Out, mode: Mode) {
+    let leg = "padded-sources";
+    let one = RT::unit();
+    let two = RT::bit();
+    let d = RT::prod(&two, &two);
+    let o2 = RT::sum(&one, &two);
+    let t2 = RT::sum(&two, &one);
+    let od = RT::sum(&one, &d);
+    let types: Vec<Rc<RT>> = vec![
+        one.clone(),
+        two.clone(),
+        d.clone(),
+        o2.clone(),
+        t2.clone(),
+        od.clone(),
+        RT::prod(&d, &d),
+        RT::prod(&o2, &d),
+        RT::prod(&t2, &d),
+        RT::prod(&d, &o2),
+        RT::prod(&od, &d),
+        RT::prod(&o2, &two),
+    ];
+    let mut u = Universe::with_types(types, false);
+    let mut b = Builder::new();
+    let nt = u.types.len();
+    let smax = ctx.tier.pick(4, 5);
+    for a in 0..nt {
+        if !u.types[a].has_padding() {
+            continue;
+        }
+        for t in 0..nt {
+            if !ctx.mine() {
+                continue;
+            }
+            let inputs = inputs_of(&u.types[a]);
+            for size in 1..=smax {
+                for term in u.gen(a, t, size).iter() {
+                    for p in [Place::Bare, Place::DirtyOutput] {
+                        let label = || format!("{} at {:?}", term.describe(), p);
+                        if !ctx.begin(leg, &label) {
+                            continue;
+                        }
+                        out.evaluations += 1;
+                        out.states += 1;
+                        out.nontrivial += 1;
+                        match guard(|| check_program(&mut b, term, p, &inputs, mode, out)) {
+                            Ok(Ok(())) => out.sample(leg, || (label(), "every input (both arms of the padded sum): output agrees with the semantics".into())),
+                            Ok(Err((c, dd))) => out.violation(&c, leg, label(), dd),
+                            Err(pn) => out.violation(&panic_class(&pn), leg, label(), pn),
+                        }
+                        ctx.end();
+                    }
+                }
+            }
         }
     }
 }
